@@ -10,17 +10,17 @@ CLAIMS = {
          "finite-enum abstract interpretation of MIR with trace partitioning; effect analysis", "4/C20"),
  "C17": ("proof", "Decides the statement for the observable moments (between API calls): the complete transition relation (every write to the job-state field, as exact from->to pairs) is checked for kind preservation, monotone phases with a single offer, finality of success, exact pairing of the ready/cleanup sets with their state classes, disjoint/consistent derived reports and a forward-only start status.",
          "typestate rules over the transition relation extracted by abstract interpretation of MIR", "4/C17"),
- "C07": ("other", "Decides the propagation and typestate clauses: the failure and upstream-failure handlers send the upstream-failure signal to every direct downstream (for-all-neighbours loop, must-emit, no early exit, must-reach on taken edges); upstream-failed states are written only by that handler on its own target, only from never-offered states, are final, and the signal goes only to direct downstreams of a job just marked failed. One known finding (F7). Not decided: that jobs without failed ancestors behave exactly as in the failure-free run.",
+ "C07": ("other", "Decides the propagation and typestate clauses: the failure and upstream-failure handlers send the upstream-failure signal to every direct downstream (for-all-neighbours loop, must-emit, no early exit, must-reach on taken edges); upstream-failed states are written only by that handler on its own target, only from never-offered states, are final, and the signal goes only to direct downstreams of a job just marked failed. A not-yet-started job told of an upstream failure ends upstream-failed on every path; the requirement summary never answers 'not needed' from inside its loop (an upstream-failed sibling cannot hide a consumer). One known finding (F7). Not decided: that jobs without failed ancestors behave exactly as in the failure-free run.",
          "typestate + CFG path rules (for-all-neighbour loops, must-pass on abstractly taken edges) over extracted protocol facts", "4/C07"),
  "C13": ("other", "Safety clauses decided: the only insertion into the cleanup set is guarded by a loop over all direct downstreams whose per-state effect on its monotone flags is computed by abstract interpretation of one iteration for each of the 35 states; offer entered only from 'executed successfully', left only by the acknowledgement handler, final afterwards; set membership paired with the state. 'Not forgotten' as a necessary condition: every finishing write announces the job and the announcement handler considers every upstream.",
          "abstract interpretation of loop iterations (monotone-flag conjunction) + typestate/path rules", "4/C13"),
  "C10": ("other", "Clauses 1-2 decided: abort_remaining, analysed with the jobs in each concrete state, collects every unfinished job on every path, turns it into the abort signal, runs the signal processor and passes through is_finished(); the abort handler from each of the 35 states ends in an aborted/finished state, emits nothing, has no error exit and removes offered jobs from the ready set. Clause 3 decided up to new_history's start-status check and the aborted/failed arms of its loops (C08/C09 rules); its remaining internal-error exits need inter-job invariants.",
          "trace-partitioned abstract interpretation + must-path rules", "4/C10"),
- "C05": ("other", "Clauses 2-3 decided (each job started at most once: phase typestate over the complete transition relation; a finished evaluation has nothing ready or running: ready-set pairing, disjoint classes, running report is a scan). Wake-up as necessary conditions: finishing announces the job, the announcement reconsiders every direct downstream, emitted signals are moved into the queue. Liveness itself is not decided.",
+ "C05": ("other", "Clauses 2-3 decided (each job started at most once: phase typestate over the complete transition relation; a finished evaluation has nothing ready or running: ready-set pairing, disjoint classes, running report is a scan). Wake-up as necessary conditions: finishing announces the job, the announcement reconsiders every direct downstream, emitted signals are moved into the queue, the requirement summary never passes over an undecided downstream nor answers 'not needed' early, a job finished without having run reconsiders its parked upstream Ephemerals on every path and for every delayed state, and every change of the 'needed' flags of a job's incoming dependencies is followed by reconsidering its direct upstreams (judged per validation verdict). Liveness itself is not decided.",
          "typestate rules + for-all-neighbour/must-pass CFG rules", "4/C05"),
- "C02": ("other", "Necessary condition for the gate clause: functions behaving as 'all direct upstreams finished' are identified by abstractly running one loop iteration per neighbour state; every emission of the ready signal must know that such a gate returned true for the same job or come from a state only entered under the gate; only the ready handler enters the offered class; finished states are stable. Not decided: absence of failure among upstreams and that Ephemeral upstreams were executed and not yet cleaned up.",
+ "C02": ("other", "Necessary condition for the gate clause: functions behaving as 'all direct upstreams finished' are identified by abstractly running one loop iteration per neighbour state; every emission of the ready signal must know that such a gate returned true for the same job or come from a state only entered under the gate; only the ready handler enters the offered class; finished states are stable. Further necessary conditions: failures reach every direct downstream; the cleanup offer waits for every direct downstream; an undecided consumer is never counted as 'does not need the Ephemeral'; a parked Ephemeral is skipped only if, for every state a direct downstream can be in from which it can still come to run, the skip is blocked (one known finding, F9: a validated Ephemeral consumer that is still waiting for its upstreams does not block). Not decided: requirement propagation across the graph.",
          "predicate summaries by abstract interpretation + dominance/ghost-fact rule on emissions", "4/C02"),
- "C19": ("other", "Decides 'no internal limit' structurally: no recursion (strongly connected component of the resolved call graph incl. closures and fn items) reachable from the public API; every integer comparison that decides an error exit compares a constant-step counter with a bound that scales with a collection length (interprocedural backward slice); graph-library algorithms called are from a vetted list of iterative implementations.",
+ "C19": ("other", "Decides 'no internal limit' structurally: no recursion (strongly connected component of the resolved call graph incl. closures and fn items) reachable from the public API; every integer comparison that decides an error exit compares a constant-step counter with a bound that scales with a collection length (interprocedural backward slice); graph-library algorithms called are from a vetted list of iterative implementations; exhaustive worklist walks over graph neighbours keep a visited set (otherwise exponential in the depth of layered graphs: two defects found and fixed); no constant cut-off (take/skip/truncate/chunks with a constant > 1) in API-reachable code. Not decided: that the size-scaled round limit is large enough for every graph shape.",
          "call-graph SCC analysis + interprocedural dataflow slice of limit comparisons", "4/C19"),
  "C08": ("other", "Mechanism of each sentence decided over all paths: history_output becomes Some only in the success event (named running job, never on a path that constructs an error) and in the skip handler (recorded value only); new_history, run abstractly for every final point (state, no output, started), removes both own records on every path and writes none; with the downstream in any failed-like state no per-dependency record is written; own records come and go in pairs.",
          "string/key provenance analysis (A4) with trace partitions over final points", "4/C08"),
@@ -43,10 +43,11 @@ CLAIMS.update({
  "C06": ("other", "Necessary conditions over all paths: state writes keep the kind; explicit panics outside the public API's argument checks are unreachable in the abstraction; unwraps are guarded (neighbour relation, string-shape facts, stored topological order); APIError / changed-output error only where documented; self-addressed signals and event signals are accepted by the receiving handler in the state they are sent in; emissions whose repetition would be rejected cancel pending consider signals; new_history cannot fail for any state a job without output can end in. The InternalError arms that need inter-job invariants are listed, not judged (F7 is reported under C07).",
          "composition of abstract-interpretation reachability, emitter/handler agreement and guard rules", "4/C06"),
 })
+CLAIMS["C04"] = ("other", "Decides the clauses whose truth is in the shape of the code (necessary conditions, not minimality of the executed set): Ephemerals nobody can need are taken out of the graph at startup (complete candidate set, iterated to the fixpoint, no neighbour query after removal) and marked finished, finished jobs are never offered; a skippable job is offered only from an invalidated state or - Ephemerals - from a validated one under the single 'needed' answer of the requirement summary; that answer is given only for a dependency flagged as needed or a downstream that has to run; 'needed' is handed on transitively only through Ephemerals, and a needed validated Ephemeral marks all its incoming dependencies; an output judged unaltered does not invalidate a dependency and without an altered or missing record the validation verdict is never 'invalidated'. Not decided: exactness of the dependency flags across the graph.",
+                 "forced-outcome abstract interpretation, per-iteration loop summaries over all job states x edge flags, typestate rules", "4/C04")
 PENDING = {}
 NA = {
  "C01": "equality of every materialised output with a from-scratch build over chains of edited evaluations relates runtime values and whole histories; no sound static argument in reach - its structural ingredients are decided under C03, C08, C11, C18",
- "C04": "'exactly the necessary set is executed' is a minimality statement over the joint state of all jobs and the requirement propagation across the graph; its one path-shaped clause (unaltered output does not invalidate) is decided as C15 R15.2",
  "C14": "independence of schedule and declaration order is a confluence property of the signal fixpoint; a lint for order-sensitive constructs can list suspects but cannot decide it either way",
 }
 def main():
